@@ -174,7 +174,7 @@ impl Property for C03 {
                         (&"Definite", Some((sub, cu))) if sub.len() == nb => {
                             for t in &sets.n {
                                 if instance_of(&project(t), sub, cu) {
-                                    let co = if sets.st.co_cycle { ":coinductive-cycle" } else { "" };
+                                    let co = if sets.st.co_cycle || program_has_co_cycle(&case.pg.program) { ":coinductive-cycle" } else { "" };
                                     out.fail(format!("unsound-answer{}", co), ctx(&format!("yielded answer `{}` covers the non-solution ({})", it.3, show_tuple(&case.pg.program, t))));
                                     break 'items;
                                 }
